@@ -142,13 +142,72 @@ let run_pc (body : string) : string =
        | _ -> "P")
   | _ -> "BAD-CASE"
 
+
+(* ---------- cobordisms (Model/TngCob.v) ---------- *)
+let tng_raw (t : tng) : string = String.concat " " (L.map comp_str t)
+let zopt = function Some v -> string_of_z v | None -> "P"
+let nopt = function Some v -> string_of_nat v | None -> "P"
+
+let cc_str (c : cobcomp) : string =
+  Printf.sprintf "[%s]>[%s] g=%s d=%s,%s nb=%s chi=%s deg=%s" (tng_raw c.csrc) (tng_raw c.ctgt) (string_of_nat c.cgenus)
+    (string_of_nat c.cdx) (string_of_nat c.cdy) (nopt (cc_nbdr c)) (zopt (cc_euler c)) (zopt (cc_deg c))
+
+let cob_str (s : cob) : string =
+  Printf.sprintf "{%s} n=%d chi=%s deg=%s nb=%s inv=%s cl=%s" (String.concat " | " (L.map cc_str s)) (L.length s)
+    (zopt (cob_euler s)) (zopt (cob_deg s)) (zopt (cob_nbdr s)) (string_of_bool01 (cob_is_invertible s))
+    (string_of_bool01 (cob_is_closed s))
+
+(* None = a constructor panics *)
+let parse_term (t : string) : cob option =
+  match split_ws t with
+  | ["c"; g; x; y] -> cob_new [cc_new [] [] (nat_of_string g) (nat_of_string x) (nat_of_string y)]
+  | ["s"; ty; a; b; c; d; g; x; y] ->
+      let cr = parse_crossing [ty; a; b; c; d] in
+      (match sdl_of cr (nat_of_string g) (nat_of_string x) (nat_of_string y) with
+       | Some c -> cob_new [c]
+       | None -> None)
+  | ["i"; ty; a; b; c; d; g; x; y] ->
+      let cr = parse_crossing [ty; a; b; c; d] in
+      (match tng_from_resolved cr with
+       | Some t -> cob_new (L.map (fun p -> cc_new [p] [p] (nat_of_string g) (nat_of_string x) (nat_of_string y)) t)
+       | None -> None)
+  | _ -> raise Bad
+
+let run_cb (body : string) : string =
+  let acc = ref [] and out = ref [] in
+  let push s = out := s :: !out in
+  (try
+     L.iter (fun t ->
+       if String.trim t <> "" then begin
+         match parse_term t with
+         | None -> push "P"; raise Stop
+         | Some b ->
+             push ("b=" ^ cob_str b);
+             (match cob_connect !acc b with
+              | None -> push "P"; raise Stop
+              | Some a -> acc := a; push ("acc=" ^ cob_str a))
+       end) (String.split_on_char ';' body);
+     push ("inv=" ^ (match cob_inv !acc with Some (Some i) -> cob_str i | Some None -> "P" | None -> "-"))
+   with Stop -> ());
+  String.concat " | " (L.rev !out)
+
+let run_cx (body : string) : string =
+  match L.filter (fun t -> String.trim t <> "") (String.split_on_char ';' body) with
+  | [a; b] ->
+      (match parse_term a, parse_term b with
+       | Some (ca :: _), Some (cb :: _) ->
+           Printf.sprintf "able=%s r=%s" (string_of_bool01 (cc_is_connectable ca cb))
+             (match cc_connect ca cb with Some c -> cc_str c | None -> "P")
+       | _ -> "P")
+  | _ -> "BAD-CASE"
+
 let handle (line : string) : string =
   let line = String.trim line in
   let (kind, body) =
     match String.index_opt line ' ' with
     | Some i -> (String.sub line 0 i, String.sub line (i + 1) (String.length line - i - 1))
     | None -> (line, "") in
-  try if kind = "pc" then run_pc body else run_script body
+  try (match kind with "pc" -> run_pc body | "cb" -> run_cb body | "cx" -> run_cx body | _ -> run_script body)
   with Bad -> "BAD-CASE"
 
 let () = run_lines handle
